@@ -1184,6 +1184,41 @@ def merge_fn(toks, opts, sections, fired):
     return out
 
 
+def rename_params(toks, names, fired):
+    """alpha-rename the non-self parameters of a fn to the given names (contracts refer to parameters by name; a
+    parameter that was merely renamed in the source, e.g. x -> _x, must not make the unit fail to compile)"""
+    k = next(i for i, t in enumerate(toks) if t.kind == "ident" and t.text == "fn")
+    p = k
+    while toks[p].text != "(":
+        if toks[p].text == "<":
+            p = match_angle(toks, p)
+        p += 1
+    pe = match_close(toks, p)
+    cur = []
+    for (a, b) in split_top_commas(toks, p + 1, pe):
+        seg = [t for t in toks[a:b] if t.kind not in ("ws", "comment")]
+        txt = [t.text for t in seg]
+        if "self" in txt[:3]:
+            continue
+        # pattern: [mut] name : type
+        nm = seg[1] if seg[0].text == "mut" else seg[0]
+        if nm.kind != "ident":
+            raise ExtractError("params=: parameter pattern is not an identifier")
+        cur.append(nm.text)
+    if len(cur) != len(names):
+        raise ExtractError(f"lost anchor: function has {len(cur)} parameters, annotations expect {len(names)}")
+    ren = {c: n for c, n in zip(cur, names) if c != n and n != "-"}
+    if ren:
+        clash = {t.text for t in toks if t.kind == "ident"} & (set(ren.values()) - set(cur))
+        if clash:
+            raise ExtractError(f"params=: renaming would capture {clash}")
+        for t in toks:
+            if t.kind == "ident" and t.text in ren:
+                t.text = ren[t.text]
+        fired["params_renamed"] = len(ren)
+    return toks
+
+
 def strip_sentinels(text):
     out, i = [], 0
     while True:
@@ -1391,6 +1426,8 @@ def render_item(unit, kind, opts, sections):
         emitted = untok(item)
     else:
         item = apply_rules(item, ["R12"] + rules, fired)
+        if opts.get("params"):
+            item = rename_params(item, [x for x in opts["params"].split(",")], fired)
         ruled = [Tok(t.kind, t.text, t.pos, t.syn) for t in item]
         merged = merge_fn(item, opts, sections, fired)
         emitted = untok(merged)
